@@ -182,7 +182,7 @@ def summary(chk, crate, f):
             from_si = flds[-1:] == [name] and status_payload(f, src)
             clo_ok = False
             if clo[0] == "agg" and clo[1].startswith(FEIG):
-                cb = crate.bodies.get(clo[1])
+                cb = crate.bodies.get(clo[1]) or getattr(crate, "absorbed", {}).get(clo[1])
                 if cb is not None:
                     clo_ok = closure_converts_arg(cb, name)
             good = from_si and clo_ok
